@@ -286,3 +286,14 @@ Qed.
 
 Lemma cleared_deref_leaks : caller_deref true = Some AttrErr /\ allowed AttrErr = false.
 Proof. split; reflexivity. Qed.
+
+(* ---- stored extension values are bytes, so the guarded decode only raises allowed classes ---- *)
+Lemma stored_ext_decodes_ok :
+  forall s, match caller_u true (store_of ext_info_store s) with Some e => allowed e = true | None => True end.
+Proof.
+  intros s. change (store_of ext_info_store s) with (SBytes s). cbn [caller_u].
+  destruct (utf8_valid s); cbn; auto.
+Qed.
+
+Lemma stored_none_leaks : caller_u true SNone = Some TypeErr /\ allowed TypeErr = false.
+Proof. split; reflexivity. Qed.
